@@ -200,6 +200,31 @@ _RE_INV = re.compile(r"Invariant (\S+) is violated")
 _RE_PROP = re.compile(r"(?:Temporal properties were violated|Action property (\S+) is violated|Error: Deadlock reached)")
 
 
+def _die_with_parent():
+    """child side: be killed when the check dies (an outer `timeout` kills only the python process; an orphaned TLC would go
+    on filling the disk and the memory and make other checks fail for lack of resources)"""
+    try:
+        import ctypes
+        ctypes.CDLL("libc.so.6", use_errno=True).prctl(1, signal.SIGKILL)      # PR_SET_PDEATHSIG
+    except Exception:
+        pass
+
+
+def resources_ok():
+    """False if the scratch file system or the memory is nearly exhausted: observations made then (empty trace files, failed
+    forks, missing identity files) are not evidence about the property"""
+    try:
+        st = os.statvfs(os.environ.get("VERIF_SCRATCH_BASE", "/var/tmp"))
+        if st.f_bavail * st.f_frsize < (2 << 30):
+            return False
+        for line in open("/proc/meminfo"):
+            if line.startswith("MemAvailable:") and int(line.split()[1]) < (1 << 20):     # < 1 GB
+                return False
+    except Exception:
+        pass
+    return True
+
+
 def tlc(module, cfg=None, env=None, workers=None, timeout=900, simulate=None, depth=None,
         deadlock=False, metadir=None, extra=(), cwd=None, heap="4g", seed=None, coverage=False,
         dfs_queue=False):
@@ -236,7 +261,7 @@ def tlc(module, cfg=None, env=None, workers=None, timeout=900, simulate=None, de
     res = TlcResult()
     t0 = time.time()
     try:
-        p = subprocess.run(cmd, cwd=cwd, env=e, stdout=subprocess.PIPE, stderr=subprocess.STDOUT, timeout=timeout)
+        p = subprocess.run(cmd, cwd=cwd, env=e, stdout=subprocess.PIPE, stderr=subprocess.STDOUT, timeout=timeout, preexec_fn=_die_with_parent)
         res.rc = p.returncode
         res.out = p.stdout.decode(errors="replace")
     except subprocess.TimeoutExpired as ex:
@@ -384,6 +409,9 @@ class Check:
         self.violations = []      # (key, description, replay_path)
         self.known_hits = []
         self.kf = KnownFindings()
+        self.resource_low = False
+        import threading
+        threading.Thread(target=self._watch_resources, daemon=True).start()
         self.scratch = Scratch(prop)
         self.replaydir = os.path.join(VERIF, "replay", prop)
         self._distinct = set()
@@ -427,7 +455,15 @@ class Check:
         self.violations.append((key, desc, path))
         return True
 
+    def _watch_resources(self):
+        while True:
+            if not resources_ok():
+                self.resource_low = True
+            time.sleep(5)
+
     def finish(self):
+        if self.violations and (getattr(self, "resource_low", False) or not resources_ok()):
+            raise Infra("disk or memory was nearly exhausted during this run: the %d objection(s) raised are not reported as verdicts; free space and run again" % len(self.violations))
         self.cov["distinct_nontrivial"] = len(self._distinct)
         ev = {"property_id": self.prop, "tier": self.tier, "seed": self.seed, "level": self.level,
               "coverage": self.cov, "assumptions": self.assumptions,
